@@ -21,6 +21,7 @@ type solverSpec struct {
 
 var solvers = []solverSpec{
 	{name: "z3-5.1.0", bin: "z3-new", args: func(t int, f string) []string { return []string{fmt.Sprintf("-T:%d", t), f} }},
+	{name: "z3-5.1.0/noauto", bin: "z3-new", args: func(t int, f string) []string { return []string{fmt.Sprintf("-T:%d", t), "auto_config=false", f} }},
 	{name: "z3-4.8.12", bin: "z3", args: func(t int, f string) []string { return []string{fmt.Sprintf("-T:%d", t), f} }},
 	{name: "cvc5-1.0", bin: "cvc5", args: func(t int, f string) []string {
 		return []string{fmt.Sprintf("--tlimit=%d", t*1000), "--produce-models", f}
@@ -94,6 +95,16 @@ func renderQuery(o *obligation, withModel bool, extra []string) string {
 	for _, n := range d.constOrd {
 		if needed[n] {
 			fmt.Fprintf(&sb, "(declare-const %s %s)\n", n, d.consts[n])
+		}
+	}
+	if c.usesIx {
+		sb.WriteString("(declare-fun ix (Int Int) Int)\n(assert (forall ((o Int) (k Int)) (! (= (ix o k) (+ o k)) :pattern ((ix o k)))))\n")
+	}
+	for _, f := range c.facts {
+		if needed[f.sym] {
+			sb.WriteString("(assert ")
+			f.t.write(&sb)
+			sb.WriteString(")\n")
 		}
 	}
 	for _, a := range lits {
@@ -224,7 +235,10 @@ func discharge(obls []*obligation, dir string, timeoutS int, workers int) {
 					o.detail = err.Error()
 					continue
 				}
-				r := runSolvers(f, timeoutS, "")
+				r := runSolvers(f, 1, "z3-5.1.0/noauto")
+				if r.status != "unsat" && r.status != "sat" {
+					r = runSolvers(f, timeoutS, "")
+				}
 				o.status = r.status
 				o.solver = r.solver
 				o.seconds = r.seconds
